@@ -1,11 +1,14 @@
 """C10 — resource failures are reported to every live participant (fault enumeration).
-For every generated communicating program (2-4 actors on 3 hosts + one link per host pair; blocking put/get, local and
-remote executions, sleeps; dyadic sizes) harness/eng2_fail.cpp runs it once fault-free, then once per
-(host or link) x (each distinct event date of the fault-free run, one tick before, one tick after), plus generated pairs
-of faults.  A control actor turns the resource off at that date from inside one kernel call that first dumps what every
-actor is blocked on (the kernel's own view).  O: the verified oracle Fail.failure_log_ok (C10_oracle_sound) judges what
-each actor then observed (killed + on_exit flag, exception kind, blocked at the final deadlock report).  K: the verified
-outcome function Fail.expected vs. the observed outcome of every actor."""
+For every generated communicating program (2-6 actors on 3 hosts; one link per host pair, optionally a backbone link that
+every route crosses too; every link with the same dyadic latency, possibly 0; blocking put/get, local and remote
+executions, sleeps; dyadic sizes; a family of programs aimed at several flows started at different dates on one link)
+harness/eng2_fail.cpp runs it once fault-free, then once per (host or link) x (each distinct event date of the fault-free
+run, one tick before, one tick after, and - with latencies - the middle and the end of the latency phase of every
+operation), plus generated pairs of faults.  A control actor turns the resource off at that date from inside one kernel
+call that first dumps what every actor is blocked on (the kernel's own view).  O: the verified oracle
+Fail.failure_log_ok (C10_oracle_sound) judges what each actor then observed (killed + on_exit flag, exception kind,
+successful return of the operation it was blocked on, blocked at the final deadlock report).  K: the verified outcome
+function Fail.expected vs. the observed outcome of every actor."""
 import os
 import struct
 import subprocess
@@ -15,11 +18,46 @@ import fw
 
 H = 3
 LINKS = [(i, j) for i in range(H) for j in range(i + 1, H)]
+TICK = 1 / 4096
 SIG = {1: "actor-of-failed-host-survives", 2: "on-exit-failed-false", 3: "waiter-gets-no-exception",
-       4: "waiter-gets-wrong-exception", 5: "blocked-forever-on-failed-resource"}
+       4: "waiter-gets-wrong-exception", 5: "blocked-forever-on-failed-resource", 6: "completed-through-off-resource"}
+LATS = [0, 0, 16, 64, 256]          # link latency in ticks
+
+
+def nlinks(prog):
+    return len(LINKS) + (1 if prog.get("topo", 0) == 1 else 0)
+
+
+def gen_shared(rng):
+    """2-3 sender/receiver pairs whose routes share a link (same host pair, or any pair through the backbone); the senders
+    start at different dates (sleep / exec first) and the links have a latency, so that a link carries established flows and
+    flows still in their latency phase at the same time"""
+    npairs = rng.choice([2, 2, 3])
+    topo = rng.choice([0, 1])
+    lat = rng.choice([16, 64, 256, 1024])
+    hosts, progs = [], []
+    s0, r0 = rng.sample(range(H), 2)
+    for k in range(npairs):
+        if topo == 1 and rng.random() < 0.6:
+            s, r = rng.sample(range(H), 2)
+        else:
+            s, r = (s0, r0) if rng.random() < 0.7 else (r0, s0)
+        snd, rcv = [], []
+        if k > 0 or rng.random() < 0.3:
+            snd.append((rng.choice([3, 4]), 4 * rng.choice([8, 64, 100, 256, 300]), 0))
+        if rng.random() < 0.25:
+            rcv.append((4, 4 * rng.choice([8, 64, 300]), 0))
+        for m in range(rng.choice([1, 1, 2])):
+            snd.append((1, 2 * k + m, 4 * rng.choice([256, 300, 1024, 2048])))
+            rcv.append((2, 2 * k + m, 0))
+        hosts += [s, r]
+        progs += [snd, rcv]
+    return {"hosts": hosts, "progs": progs, "lat": lat, "topo": topo}
 
 
 def gen_prog(rng):
+    if rng.random() < 0.4:
+        return gen_shared(rng)
     A = rng.choice([2, 2, 3, 3, 4])
     hosts = [rng.randrange(H) for _ in range(A)]
     if len(set(hosts)) == 1:
@@ -43,14 +81,25 @@ def gen_prog(rng):
             progs[rng.randrange(A)].append((4, dur, 0))
         else:
             progs[rng.randrange(A)].append((5, rng.randrange(H), dur))
-    return {"hosts": hosts, "progs": progs}
+    return {"hosts": hosts, "progs": progs, "lat": rng.choice(LATS), "topo": rng.choice([0, 0, 1])}
+
+
+# boundary / regression programs, enumerated in full (every resource x every candidate date) before the generated ones
+CORPUS = [
+    # two flows h0->h1 on the same link (latency 64 ticks), the second one starts at 1024: a fault inside its latency phase must
+    # also fail it (lmm::Constraint::get_variable has to go on with the disabled variables after the enabled ones)
+    {"hosts": [0, 1, 0, 1], "progs": [[(1, 0, 4096)], [(2, 0, 0)], [(4, 1024, 0), (1, 1, 4096)], [(2, 1, 0)]], "lat": 64, "topo": 0},
+    # the same through a backbone shared by two different host pairs, three flows, the third one after an execution
+    {"hosts": [0, 1, 2, 1, 2, 0], "progs": [[(1, 0, 8192)], [(2, 0, 0)], [(4, 512, 0), (1, 1, 4096)], [(2, 1, 0)],
+                                            [(3, 1200, 0), (1, 2, 1024)], [(2, 2, 0)]], "lat": 256, "topo": 1},
+]
 
 
 def enc(prog, faults):
     l = [len(faults)]
     for f in faults:
         l += [f[0], f[1], bits(f[2])]
-    l += [H, len(prog["hosts"])]
+    l += [H, prog.get("lat", 0), prog.get("topo", 0), len(prog["hosts"])]
     for h, p in zip(prog["hosts"], prog["progs"]):
         l += [h, len(p)]
         for o in p:
@@ -89,9 +138,11 @@ def parse(out, A):
             ev.append((k, int(t[i + 1]), ticks(t[i + 2]), int(t[i + 3]))); i += 4
         elif k in ("F", "L", "T"):
             ev.append((k, ticks(t[i + 1]))); i += 2
+        elif k in ("U", "R"):
+            ev.append((k, int(t[i + 1]), ticks(t[i + 2]))); i += 3
         elif k in ("W", "B"):
-            nl = int(t[i + 5])
-            ev.append((k, int(t[i + 1]), int(t[i + 2]), int(t[i + 3]), int(t[i + 4]), [int(x) for x in t[i + 6:i + 6 + nl]])); i += 6 + nl
+            nl = int(t[i + 6])
+            ev.append((k, int(t[i + 1]), int(t[i + 2]), int(t[i + 3]), int(t[i + 4]), [int(x) for x in t[i + 7:i + 7 + nl]], int(t[i + 5]))); i += 7 + nl
         else:
             raise ValueError("unparsable token %r at %d" % (k, i))
     return ev
@@ -104,6 +155,7 @@ def observations(prog, faults, ev):
     fpos = [i for i, e in enumerate(ev) if e[0] == "F"]
     dead = [i for i, e in enumerate(ev) if e[0] == "L"]
     endw = {e[1]: e for e in ev if e[0] == "B"}
+    faults = [f for f in faults if f[0] in (1, 2)]       # the other control actions (suspend / resume) are not faults
     for n, p in enumerate(fpos):
         T = ev[p][1]
         f = faults[n]
@@ -128,13 +180,31 @@ def observations(prog, faults, ev):
             exc = 0
             if after and after[0][0] == "E":
                 exc = after[0][4]
+            # did the operation the actor was blocked on when the resource went off return successfully afterwards?
+            cur = [e[2] for e in ev[:p] if e[0] == "S" and e[1] == a]
+            done = bool(cur) and w[2] != 0 and any(e[0] == "D" and e[1] == a and e[2] == cur[-1] for e in ev[p + 1 + A:])
             b = endw.get(a, ("B", a, 0, -1, -1, []))
             # a deadlock report only counts against this fault when the resource is still off at the end: it is (no restart here)
             words += [prog["hosts"][a], 1 if alive else 0, w[2], w[3], w[4], len(w[5])] + w[5]
-            words += [1 if killed else 0, 1 if failed else 0, exc, b[2], b[3], b[4], len(b[5])] + b[5]
+            words += [1 if killed else 0, 1 if failed else 0, exc, 1 if done else 0, b[2], b[3], b[4], len(b[5])] + b[5]
             outcome.append(1 if killed else (2 if exc == 1 else 3 if exc == 2 else 9 if exc else 0) if alive else 0)
         res.append((words, outcome, T, f, [snap[a][2] for a in range(A)]))
     return res
+
+
+def flows_on(prog, ev, f, T):
+    """coverage only: (number of flows on the failed link at the failure date, number of those started less than one latency
+    before); a flow = the put/get pair of one mailbox, started when the later of the two was posted"""
+    A = len(prog["hosts"])
+    p = [i for i, e in enumerate(ev) if e[0] == "F" and e[1] == T][0]
+    on = [e[1] for e in ev[p + 1:p + 1 + A] if e[0] == "W" and e[2] == 4 and f[1] in e[5]]
+    start = {}
+    for a in on:
+        s = [e for e in ev[:p] if e[0] == "S" and e[1] == a]
+        o = prog["progs"][a][s[-1][2]]
+        if o[0] in (1, 2):
+            start[o[1]] = max(start.get(o[1], 0), s[-1][3])
+    return len(start), sum(1 for d in start.values() if T - d < prog.get("lat", 0) * TICK)
 
 
 def run(ctx):
@@ -147,40 +217,61 @@ def run(ctx):
     nprog = max(2, int(frac * ctx.n(8, 80)))
     if ctx.replay:
         rp = json.load(open(ctx.replay))["case"]
-        progs = [{"hosts": rp["hosts"], "progs": [[tuple(o) for o in p] for p in rp["progs"]]}]
+        progs = [{"hosts": rp["hosts"], "progs": [[tuple(o) for o in p] for p in rp["progs"]], "lat": rp.get("lat", 0),
+                  "topo": rp.get("topo", 0)}]
         forced = [[(f[0], f[1], float(f[2])) for f in rp["faults"]]]
     else:
-        progs = [gen_prog(rng) for _ in range(nprog)]
+        progs = CORPUS + [gen_prog(rng) for _ in range(nprog)]
         forced = None
-    ctx.cov["rule"] = ("programs: 2-4 actors on 3 hosts (one link per host pair), 2-7 steps among blocking put/get pairs on mailboxes, "
-                       "local exec, remote exec (waited from another host), sleep; durations 4*{1,2,8,64,256,300,1024} ticks of "
-                       "2^-12 s. faults: every host and link x every distinct event date of the fault-free run and +-1 tick, "
-                       "plus random pairs of faults. non-trivial = at the failure date some actor is on the failed host or "
-                       "blocked on an activity using the failed resource; distinct = distinct (program, faults)")
+    ctx.cov["rule"] = ("programs: 2-6 actors on 3 hosts; one link per host pair, in 1 program out of 3 also a backbone link crossed by "
+                       "every route; all links with latency 0/16/64/256/1024 ticks; either 2-7 steps among blocking put/get pairs on "
+                       "mailboxes, local exec, remote exec (waited from another host), sleep, durations 4*{1,2,8,64,256,300,1024} ticks "
+                       "of 2^-12 s, or (40%%) 2-3 sender/receiver pairs sharing a link whose senders start at different dates; plus "
+                       "%d corpus programs enumerated in full. faults: every host and link x every distinct event date of the "
+                       "fault-free run and +-1 tick and, with latencies, every operation start + latency/2, + latency, + latency +-1 "
+                       "tick (quick tier: a sample of 10 + 8 dates per generated program), plus random pairs of faults. non-trivial "
+                       "= at the failure date some actor is on the failed host or blocked on an activity using the failed resource; "
+                       "distinct = distinct (program, faults)" % len(CORPUS))
     dist = {"programs": 0, "single_faults": 0, "fault_pairs": 0, "host_faults": 0, "link_faults": 0, "actors_killed": 0,
-            "net_exceptions": 0, "host_exceptions": 0, "deadlocks_after_fault": 0, "fault_not_reached": 0}
+            "net_exceptions": 0, "host_exceptions": 0, "deadlocks_after_fault": 0, "fault_not_reached": 0,
+            "programs_with_latency": 0, "programs_with_backbone": 0, "link_faults_on_shared_link": 0,
+            "link_faults_with_flow_in_latency_phase_and_established_flow": 0}
     jobs = []
     for pi, prog in enumerate(progs):
         rc, so, se = run_one(exe, prog, [])
         if rc != 0:
-            ctx.fail("driver-crash", "eng2_fail died on the fault-free run: rc=%d %s" % (rc, se[-300:]), {"hosts": prog["hosts"], "progs": prog["progs"], "faults": []})
+            ctx.fail("driver-crash", "eng2_fail died on the fault-free run: rc=%d %s" % (rc, se[-300:]), dict(prog, faults=[]))
             continue
         ev = parse(so, len(prog["hosts"]))
         if any(e[0] == "L" for e in ev):
             dist["skipped_programs"] = dist.get("skipped_programs", 0) + 1
             continue
         dist["programs"] += 1
+        lat = prog.get("lat", 0)
+        dist["programs_with_latency"] += lat > 0
+        dist["programs_with_backbone"] += prog.get("topo", 0) == 1
         dates = sorted(set(e[3] for e in ev if e[0] in "SD"))
-        cand = sorted(set(d + k / 4096 for d in dates for k in (-1, 0, 1) if d + k / 4096 >= 0))
+        cand = sorted(set(d + k * TICK for d in dates for k in (-1, 0, 1) if d + k * TICK >= 0))
+        # inside and at the end of the latency phase of whatever starts at an operation start (a flow starts when the later of
+        # its put/get is posted)
+        starts = sorted(set(e[3] for e in ev if e[0] == "S"))
+        lcand = sorted(set(d + k * TICK for d in starts for k in (lat // 2, lat - 1, lat, lat + 1)) - set(cand)) if lat > 0 else []
         if not cand:
             dist["skipped_programs"] = dist.get("skipped_programs", 0) + 1
             continue
         if forced:
             jobs += [(prog, f) for f in forced]
             continue
-        if ctx.quick and len(cand) > 14:
-            cand = sorted(rng.sample(cand, 14))
-        res = [(1, h) for h in range(H)] + [(2, l) for l in range(len(LINKS))]
+        if ctx.quick and pi >= len(CORPUS):
+            if len(cand) > 10:
+                cand = sorted(rng.sample(cand, 10))
+            if len(lcand) > 8:
+                # the middle of a latency phase first
+                mid = sorted(set(d + (lat // 2) * TICK for d in starts) & set(lcand))
+                mid = rng.sample(mid, min(len(mid), 5))
+                lcand = sorted(mid + rng.sample(sorted(set(lcand) - set(mid)), 8 - len(mid)))
+        cand = sorted(set(cand) | set(lcand))
+        res = [(1, h) for h in range(H)] + [(2, l) for l in range(nlinks(prog))]
         for (fk, fid) in res:
             for d in cand:
                 jobs.append((prog, [(fk, fid, d)]))
@@ -192,7 +283,7 @@ def run(ctx):
         outs = list(ex.map(lambda j: run_one(exe, j[0], j[1]), jobs))
     oin, meta = [], []
     for (prog, faults), (rc, so, se) in zip(jobs, outs):
-        case = {"hosts": prog["hosts"], "progs": prog["progs"], "faults": faults}
+        case = {"hosts": prog["hosts"], "progs": prog["progs"], "lat": prog.get("lat", 0), "topo": prog.get("topo", 0), "faults": faults}
         if rc != 0:
             ctx.case(json.dumps(case), False)
             ctx.fail("driver-crash", "eng2_fail died: rc=%d %s" % (rc, se[-300:]), case)
@@ -210,6 +301,10 @@ def run(ctx):
         for (words, outcome, T, f, kinds) in obs:
             oin.append(words)
             meta.append((case, outcome, T, f, kinds))
+            if f[0] == 2:
+                nfl, nyoung = flows_on(prog, ev, f, T)
+                dist["link_faults_on_shared_link"] += nfl >= 2
+                dist["link_faults_with_flow_in_latency_phase_and_established_flow"] += 0 < nyoung < nfl
     model = fw.run_model("c10", "run_c10_model", oin) if oin else []
     verd = fw.run_model("c10", "run_c10_oracle", oin) if oin else []
     for (case, outcome, T, f, kinds), m, v in zip(meta, model, verd):
@@ -238,6 +333,7 @@ def run(ctx):
         "what each actor is blocked on at the failure instant is read from the kernel's own structures (ActorImpl::waiting_synchros_, "
         "CommImpl state / source / destination / traversed links) inside the kernel call that turns the resource off",
         "state profiles are not exercised: the resource is turned off through Host::turn_off / Link::turn_off",
+        "CM02 network model without cross-traffic nor TCP window; every link has the same latency",
         "resources are not turned back on; actors do not auto-restart"]
 
 
